@@ -179,7 +179,10 @@ def find_compatible_eri_parts(term_list: list[e.Term]) -> dict[int, dict]:
         eris = e.Expr(1, **assumptions)
         for o in term.objects:
             if not o.sympy.is_number and not o.contains_only_orb_energies:
-                eris *= o
+                # multiply the plain sympy object: the assumptions of the
+                # object hold the (possibly not provided) target indices of
+                # the parent expression, while eris holds the actual ones
+                eris *= o.sympy
         eri_parts.append(eris.terms[0])
 
     return find_compatible_terms(eri_parts)
